@@ -72,6 +72,9 @@ def run(F, R):
     # counters and the folded completion test (C03.E5 / E9)
     from .C03 import wrap_rule
     wrap_rule(F, R, 'Z16')
+    # Z17: lengths and ids of completions come from the used-ring slot of the trusted index; a refused poll consumes nothing (C03.E1 / E2)
+    from .C03 import pop_rule
+    pop_rule(F, R, 'Z17')
     # Z10: returned values equal what the device reported: integer -> enum decoding tables agree with the enums' codes
     decode_tables_rule(F, R, 'Z10', ['device::'])
     z11_rtc(F, R, M, roles)
